@@ -175,3 +175,54 @@ Example dedup_example :
    | None => (7%nat, [])
    end) = (1%nat, [Done 14; Get 0 [] 1]).
 Proof. vm_compute. split; reflexivity. Qed.
+
+(** [success_justified].  History variables ([gstep], a function of pre-state
+    and step): [GAsk i k e] - caller i asked for key k and found or created
+    in-flight entry e; [GJust e] - e's owner saw the sink answer "present" for
+    its key or its copy into the sink completed; [GSucc i k e] - caller i is
+    told success for k on the strength of e (it owned e, or waited for e and
+    read success = true).  Every reported success is preceded in the trace by
+    the caller's own request that found/created e AND by a sink-present
+    observation or completed copy belonging to e; and e was registered in the
+    in-flight map when the caller asked.  This is the strongest statement
+    true of the algorithm: the justification may precede the request (a
+    leader's FindMissing can have returned just before a waiter arrived,
+    while the leader had not yet unregistered); for sinks whose contents only
+    grow during the run it implies "found in, or copied to, the sink after the
+    caller asked".  The literal reading is NOT a theorem of this algorithm and
+    is not claimed. *)
+Theorem success_justified : forall sets source sink tr s log,
+  grun (init_state sets source sink) tr [] = Some (s, log) ->
+  forall l1 l2 i k e, log = l1 ++ GSucc i k e :: l2 -> In (GJust e) l2 /\ In (GAsk i k e) l2.
+Proof. exact dedup_success_justified. Qed.
+Print Assumptions success_justified.
+
+Theorem success_justified_entry_registered_when_asked : forall s ev s' i k e,
+  step MDedup s ev = Some s' -> In (GAsk i k e) (gstep s ev) -> lookup_key k (inflight s') = Some e.
+Proof. exact ask_registered. Qed.
+Print Assumptions success_justified_entry_registered_when_asked.
+
+(** Non-vacuity: caller 1 waits for caller 0's copy and is told success;
+    the log (newest first) shows request, justification, successes. *)
+Example success_example :
+  let tr := [EStart 0; ETau 0 false; EStart 1; ETau 1 false; ERel 0 0; ERel 0 0; ERel 0 0;
+             ETau 0 false; ETau 0 false; ETau 1 false] in
+  option_map snd (grun (init_state [[0%nat]; [0%nat]] [0%nat] []) tr []) =
+  Some [GSucc 1 0 0; GSucc 0 0 0; GJust 0; GAsk 1 0 0; GAsk 0 0 0].
+Proof. vm_compute. reflexivity. Qed.
+
+(** ** Existence cache: size bound (down to size 1) and panic-freedom.
+    Through any history, the number of cached entries never exceeds the
+    configured size, the LRU queue holds exactly the cached keys without
+    duplicates, and Peek/Remove are never applied to an empty queue. *)
+Theorem existence_cache_bounded : forall size dur ops, (1 <= size)%nat ->
+  forall s, ecinv (cache s) -> (length (times (cache s)) <= size)%nat ->
+  let s' := snd (erun size dur ops s) in
+  ecinv (cache s') /\ (length (times (cache s')) <= size)%nat.
+Proof. exact ec_bounded. Qed.
+Print Assumptions existence_cache_bounded.
+
+Theorem existence_cache_never_panics : forall size dur ops, (1 <= size)%nat ->
+  lpanic (elru (cache (snd (erun size dur ops (mkest ec_empty 0%N []))))) = false.
+Proof. exact ec_no_panic. Qed.
+Print Assumptions existence_cache_never_panics.
